@@ -1,5 +1,6 @@
 import SakuraVerif.Driver.SmfOps
 import SakuraVerif.Driver.DumpOps
+import SakuraVerif.Driver.LenOps
 open Sakura Sakura.Wire Sakura.Driver
 
 def handle (line : String) : String :=
@@ -11,6 +12,9 @@ def handle (line : String) : String :=
   | ["spec.c02", bin, pf, tracks] => "ok " ++ specC02 (unhex bin) (parseInt pf) (parseTracks tracks)
   | ["playfrom", p, evs] => "ok ev=" ++ showEvents (playFrom (parseInt p) (parseEvents evs))
   | ["spec.c20", bin, text] => "ok " ++ specC20 (unhex bin) (String.ofList ((utf8Decode (unhex text)).map Char.ofNat))
+  | ["calc_length", str, tb, d] => s!"ok out={Sakura.Len.calcLength (parseInt tb) (parseInt d) (text str)}"
+  | ["lenspec", tb, d, syn] => s!"ok out={lenSpec (parseInt tb) (parseInt d) syn}"
+  | ["lenspec2", tb, dsyn, syn] => s!"ok out={lenSpec (parseInt tb) (lenSpec (parseInt tb) (parseInt tb) dsyn) syn}"
   | _ => "bad-op"
 
 partial def loop (h : IO.FS.Stream) (out : IO.FS.Stream) : IO Unit := do
